@@ -66,12 +66,25 @@ def rigid_body_state(rng, unit=None, big=False):
     return q, u, u_dot, cls
 
 
+def on_axis_or_plane(rng, v):
+    """the vector with one or two components set to EXACTLY zero (a point on a body axis or in a coordinate plane)"""
+    v = np.array(v, dtype=float)
+    k = int(rng.integers(3))
+    if rng.random() < 0.5:
+        v[k] = 0.0
+    else:
+        v[[i for i in range(3) if i != k]] = 0.0
+    return v
+
+
 def offset(rng):
-    c = int(rng.integers(4))
+    c = int(rng.integers(5))
     if c == 0:
         return np.zeros(3), "zero"
     if c == 1:
         return rng.normal(size=3) * 1e3, "large"
+    if c == 2:
+        return on_axis_or_plane(rng, rng.normal(size=3)), "axis_or_plane"
     return rng.normal(size=3), "random"
 
 
@@ -159,10 +172,15 @@ class Motion:
 
     def frame(self, Frame, name="frame", constant_orientation=False):
         rt, rtt = (self.c1.copy(), np.zeros(3)) if self.array_derivatives else (self.r_t, self.r_tt)
+        pos = dict(r_OP=self.r, r_OP_t=rt, r_OP_tt=rtt)
+        if not self.moving and self.rest_at is None and int(abs(self.c0[0]) * 1e6) % 2 == 0:
+            # a fixed origin written the natural way: one constant array, no derivatives (pillar, turntable, crank bearing)
+            pos = dict(r_OP=self.c0.copy())
+            self.origin_as_array = True
         if constant_orientation or not self.rotating:
             A0 = self.A0
-            return Frame(r_OP=self.r, r_OP_t=rt, r_OP_tt=rtt, A_IB=A0, name=name)
-        return Frame(r_OP=self.r, r_OP_t=rt, r_OP_tt=rtt, A_IB=self.A, A_IB_t=self.A_t, A_IB_tt=self.A_tt, name=name)
+            return Frame(**pos, A_IB=A0, name=name)
+        return Frame(**pos, A_IB=self.A, A_IB_t=self.A_t, A_IB_tt=self.A_tt, name=name)
 
 
 def path_state(body_q_dot, t, q, u, u_dot):
@@ -215,6 +233,10 @@ def make_subsystem(rng, kind, name):
         return m.frame(Frame, name=name), True, False, m
     if kind == "rotating_frame":
         m = Motion(rng, moving=True, rotating=True)
+        return m.frame(Frame, name=name), True, False, m
+    if kind == "turntable":
+        # prescribed rotation about a fixed origin
+        m = Motion(rng, moving=False, rotating=True)
         return m.frame(Frame, name=name), True, False, m
     if kind == "rigid_body":
         q0, u0, _, _ = rigid_body_state(rng, unit=True)
